@@ -6,7 +6,7 @@ from vstat.terms import dict_entries, builder, show, SELF, NONE, G, alts, walk, 
 from vstat.guards import path_conditions
 from vstat.cfg import cfg_of
 from vstat import algebra, scipyinfo
-from .kwdict import local_dict_stores
+from .kwdict import local_dict_stores, SharedDict
 from .distfam import SLOT_TABLE, P, A, expected_slot
 
 
@@ -33,6 +33,7 @@ class MleInfo:
         self.dist = self.fit_call[1][1].split(".")[2] if self.fit_call else None
         self.kw_stores = []  # (key, value term, pc, stmt)
         self.kw_name = None
+        self.kw_shared = None
         if self.fit_stmt is not None:
             call = self.fit_stmt.value
             for k in call.keywords:
@@ -44,7 +45,25 @@ class MleInfo:
                 self._collect_kw()
 
     def _collect_kw(self):
-        self.kw_stores = local_dict_stores(self.fn, self.b, self.pcs, self.kw_name)
+        self.kw_shared = None
+        try:
+            self.kw_stores = local_dict_stores(self.fn, self.b, self.pcs, self.kw_name)
+        except SharedDict as e:
+            self.kw_stores = []
+            self.kw_shared = (e.term, e.stmt)
+
+    def shared_keywords(self, rep, rule):
+        """Obligation: the dict of fit keywords is built in this call (a dict kept on the class / object / module and
+        filled by stores carries the fixed-parameter keywords of earlier fits into this one)."""
+        inst = f"{self.fam.ci.qualname}._fit_mle:fresh-keywords"
+        if getattr(self, "kw_shared", None):
+            from vstat.terms import show
+            t, st = self.kw_shared
+            rep.fail(rule, inst, self.fn.where(st), f"the keyword dict handed to scipy fit is {show(t)[:80]}, an object that outlives the call and is filled by stores: "
+                     "keywords set for one fit (f0 / floc / fscale of a fixed parameter) are still set in the next fit of any object sharing it")
+            return False
+        rep.ok(rule, inst, self.fn.where(self.fit_stmt), "fit keywords are collected in a dict created in the call")
+        return True
 
     def slot_of(self, par):
         """(index, scipy name, kind) of the slot parameter par feeds, from the frozen table."""
